@@ -1,11 +1,14 @@
 import GM.CP
 import GM.Alias
 import TM.Cycle
+import GM.Config
 /-! Line-protocol driver for the graph layer (slices G-cp, G-sel).  Protocol: DESIGN.md appendix A.3.
 
     Q <id> <n>
     N <prio> <debug 0|1> <pred>*                 (n lines; node i = line i; recording order)
     cp                                           -> <id> CP <v0> … <v(n-1)>
+    cfg <seq flag 0|1 per node> ; <alias> <prio|-> <seq 0|1|-> ; …     a reconfiguration (GM.applyConfig: config_from_dict/yaml/json)
+                                                 -> <id> CFG OK P <prio…> S <seq…> CP <compound priority…> | <id> CFG REFUSED alias|ambiguous
     cyc                                          -> <id> CYC ACCEPT|REFUSE     the build-time cycle check (TM.acyclicB);
                                                  for this query the N lines may list the nodes in ANY order
     I <node> <id> <tag>*                         (optional, any number: the node's id string and its tags)
@@ -97,6 +100,28 @@ def main : IO Unit := do
               | _, _, _ => IO.println s!"{qid} VALUEERROR alias"
             | _, _, _ => IO.println s!"{qid} PARSE"
           | _ => IO.println s!"{qid} PARSE"
+        | "cfg" :: rest =>
+          let nm : Naming := { n := n, idOf := fun m => idA.getD m "", tagsOf := fun m => tagA.getD m [] }
+          match splitOnTok rest ";" with
+          | seqs :: ents =>
+            let seqA : Array Bool := (seqs.map (· == "1")).toArray
+            let entries : List (Option Entry) := ents.map fun e =>
+              match e with
+              | [al, p, sq] => (parseAlias al).map fun a =>
+                  (⟨a, if p == "-" then none else p.toInt?, if sq == "-" then none else some (sq == "1")⟩ : Entry)
+              | _ => none
+            match entries.mapM id with
+            | none => IO.println s!"{qid} PARSE"
+            | some es =>
+              match applyConfig nm ⟨prioF, fun m => seqA.getD m false⟩ es with
+              | .error .unknownAlias => IO.println s!"{qid} CFG REFUSED alias"
+              | .error .ambiguous => IO.println s!"{qid} CFG REFUSED ambiguous"
+              | .ok a' =>
+                let ps := " ".intercalate ((List.range n).map fun m => toString (a'.prio m))
+                let ss := " ".intercalate ((List.range n).map fun m => if a'.seq m then "1" else "0")
+                let cps := " ".intercalate ((List.range n).map fun m => toString (cpAll g a'.prio m))
+                IO.println s!"{qid} CFG OK P {ps} S {ss} CP {cps}"
+          | [] => IO.println s!"{qid} PARSE"
         | ["cyc"] =>
           IO.println s!"{qid} CYC {if TM.acyclicB (List.range n) g.preds then "ACCEPT" else "REFUSE"}"
         | ["cp"] =>
